@@ -34,6 +34,7 @@ class Helper:
         self.qual, self.node, self.cls, self.kind = qual, node, cls, kind
         self.scope = scope                      # qualified name of the enclosing function for closures
         self.reason: Optional[str] = None       # why it cannot be inlined
+        self.kwargs_value = False               # the **kwargs parameter is read as a dict (kwargs.items(), kwargs.keys(), ...)
 
 
 def _deco(d: ast.AST) -> str:
@@ -91,9 +92,13 @@ def _classify(h: Helper):
         # **kwargs is supported when it is only ever passed on as `f(..., **kwargs)`
         kw = a.kwarg.arg
         inside = {id(k.value) for c in ast.walk(n) if isinstance(c, ast.Call) for k in c.keywords if k.arg is None and isinstance(k.value, ast.Name) and k.value.id == kw}
-        if any(isinstance(x, ast.Name) and x.id == kw and id(x) not in inside for x in ast.walk(n)):
-            h.reason = "keyword-star parameter used other than as f(**kwargs)"
-            return
+        others = [x for x in ast.walk(n) if isinstance(x, ast.Name) and x.id == kw and id(x) not in inside]
+        if others:
+            # read as a dict: it is bound to a dict display of the call's keywords where the helper is spelled out
+            if any(not isinstance(x.ctx, ast.Load) for x in others):
+                h.reason = "keyword-star parameter rebound in the helper"
+                return
+            h.kwargs_value = True
     if a.vararg:
         # *args is supported when it is only ever passed on as `f(..., *args)`
         va = a.vararg.arg
@@ -542,7 +547,10 @@ class Inliner:
                 else:
                     return None
         body = copy.deepcopy(_strip_doc(hn.body))
-        if kwa is not None:
+        kw_dict: Optional[ast.Dict] = None
+        if kwa is not None and h.kwargs_value:
+            kw_dict = ast.Dict(keys=[ast.Constant(value=k.arg) for k in extra_kw], values=[copy.deepcopy(k.value) for k in extra_kw])
+        elif kwa is not None:
             if not all(_simple(k.value) for k in extra_kw):
                 self.skipped.append((qual, h.qual, "non-trivial expressions passed through **kwargs"))
                 return None
@@ -575,6 +583,9 @@ class Inliner:
                 fresh = p if (p not in caller_names) else p + tag
                 rename[p] = fresh
                 pre.append(ast.copy_location(ast.Assign(targets=[ast.Name(id=fresh, ctx=ast.Store())], value=copy.deepcopy(a)), st))
+        if kw_dict is not None:
+            rename[kwa] = kwa + tag
+            pre.append(ast.copy_location(ast.Assign(targets=[ast.Name(id=kwa + tag, ctx=ast.Store())], value=kw_dict), st))
         for loc in sorted(stored - set(params)):
             if loc in caller_names and loc not in target_names:
                 rename[loc] = loc + tag
@@ -1094,8 +1105,14 @@ def _desugar_literal_dict_loops(fn: ast.AST) -> int:
                     elif isinstance(it, ast.Name) and it.id == name and isinstance(st.target, ast.Name):
                         uses.append(("keys", block, st, it))
                 if isinstance(st, ast.Expr) and isinstance(st.value, ast.Call) and isinstance(st.value.func, ast.Attribute) \
-                        and st.value.func.attr == "extend" and len(st.value.args) == 1 and isinstance(st.value.args[0], ast.Name) and st.value.args[0].id == name:
-                    uses.append(("extend", block, st, st.value.args[0]))
+                        and st.value.func.attr == "extend" and len(st.value.args) == 1:
+                    a0 = st.value.args[0]
+                    if isinstance(a0, ast.Call) and isinstance(a0.func, ast.Name) and a0.func.id in ("list", "tuple") and len(a0.args) == 1 and not a0.keywords:
+                        a0 = a0.args[0]
+                    if isinstance(a0, ast.Call) and isinstance(a0.func, ast.Attribute) and a0.func.attr == "keys" and not a0.args and not a0.keywords:
+                        a0 = a0.func.value
+                    if isinstance(a0, ast.Name) and a0.id == name:
+                        uses.append(("extend", block, st, a0))
                 for fld in ("body", "orelse", "finalbody"):
                     sub = getattr(st, fld, None)
                     if isinstance(sub, list) and sub and isinstance(sub[0], ast.stmt) and not isinstance(st, (ast.FunctionDef, ast.ClassDef)):
@@ -1418,10 +1435,13 @@ def desugar_after_inlining(trees: Dict[str, ast.Module]) -> int:
     """Rewrites that become possible once helper calls have been spelled out (literal method / attribute names)."""
     n = 0
     for tree in trees.values():
+        fns = [x for x in ast.walk(tree) if isinstance(x, (ast.FunctionDef, ast.AsyncFunctionDef))]
+        for fn in fns:
+            n += _desugar_literal_dict_loops(fn)
         src_has = any(isinstance(x, (ast.Name, ast.Attribute)) and getattr(x, "id", getattr(x, "attr", "")) in ("methodcaller", "getattr") for x in ast.walk(tree))
         if not src_has:
             continue
-        for fn in [x for x in ast.walk(tree) if isinstance(x, (ast.FunctionDef, ast.AsyncFunctionDef))]:
+        for fn in fns:
             n += _desugar_methodcaller(fn)
         _GetattrLiteral().visit(tree)
         ast.fix_missing_locations(tree)
